@@ -7,7 +7,8 @@ import sys
 TYPES = [("I64", "int64"), ("I32", "int32"), ("U32", "uint32"), ("I16", "int16"), ("I8", "int8")]
 
 def out_spec(bound, rk):
-    return ("forall k int :: 0 <= k && k < %s ==> member(b, uint64(s[pos+k]-add)) && %s(b, uint64(s[pos+k]-add)) == k" % (bound, rk))
+    # quantified over the absolute slice position p (no arithmetic inside the trigger term s[p])
+    return ("forall p int :: pos <= p && p < pos + %s ==> member(b, uint64(s[p]-add)) && %s(b, uint64(s[p]-add)) == p - pos" % (bound, rk))
 
 def iterator(name, T, reverse):
     rk = "rrank" if reverse else "rank"
